@@ -286,7 +286,14 @@ fn build_control_block_request<E: FieldElement<BaseField = Felt>>(
     let header =
         alphas[0] + alphas[1].mul_base(Felt::from(transition_label)) + alphas[2].mul_base(addr_nxt);
 
-    let state = main_trace.decoder_hasher_state(row);
+    // the hash of a DYN block is computed over two empty words (see `start_dyn_block()`): the
+    // decoder's hasher registers of a DYN row hold the hash of the dynamically selected callee,
+    // which is not a part of the block's own hash.
+    let state = if op_code_felt == Felt::from(DYN) {
+        [ZERO; 8]
+    } else {
+        main_trace.decoder_hasher_state(row)
+    };
 
     header + build_value(&alphas[8..16], &state) + alphas[5].mul_base(op_code_felt)
 }
